@@ -110,6 +110,11 @@ Init ==
         cs = [fam |-> "pair", name |-> k1.n \o "," \o k2.n, ctx |-> ctx, prog |-> prog, data |-> [x |-> k1.v, y |-> k2.v],
               res |-> Run(prog, WithHelpers([x |-> k1.v, y |-> k2.v]), EmptyScope, ""),
               want |-> KindText(ctx, ~Falsy(k1.v)) \o <<"|">> \o KindText(ctx, ~Falsy(k2.v)) \o <<"|">> \o KindText(ctx, ~Falsy(k1.v))]
+  \* the leading condition names something that is not set (falsy, not an error): the else-ifs are still tried in order
+  \/ \E n \in 1..MaxN : \E tv \in [1..n -> BOOLEAN], hasel \in BOOLEAN, pl \in {"top", "fn"} :
+        LET prog == Place(pl, IfChain(Id("zz"), Body("U", FALSE), [i \in 1..n |-> [c |-> Cond(i, tv[i]), b |-> Body(Markers[i], FALSE)]], Body("Z", FALSE), hasel)) IN
+        cs = [fam |-> "unkchain", name |-> pl, ctx |-> "chain", prog |-> prog, data |-> EmptyScope, tv |-> tv, hasel |-> hasel,
+              res |-> Run(prog, WithHelpers(EmptyScope), EmptyScope, ""), want |-> <<>>]
   \/ \E n \in 1..MaxN : \E tv \in [1..n -> BOOLEAN], hasel \in BOOLEAN :
         LET prog == Place("top", ChainIfB(tv, hasel, TRUE)) IN
         cs = [fam |-> "failchain", name |-> "top", ctx |-> "chain", prog |-> prog, data |-> EmptyScope, tv |-> tv, hasel |-> hasel,
@@ -143,6 +148,12 @@ ChainTheorem ==
        IN PiecesText(cs.res.pieces) = (IF Reps(cs.name) = 2 THEN once \o once ELSE once)
     /\ Len(cs.res.log) = Reps(cs.name) * ChainEvaluated(cs.tv)
     /\ \A i \in 1..Len(cs.res.log) : cs.res.log[i].id = ((i - 1) % ChainEvaluated(cs.tv)) + 1
+
+UnkChainTheorem ==
+  cs.fam = "unkchain" =>
+    /\ cs.res.k = "out"
+    /\ PiecesText(cs.res.pieces) = <<"[">> \o ChainBody(cs.tv, cs.hasel) \o <<"]">>
+    /\ Len(cs.res.log) = ChainEvaluated(cs.tv)
 
 \* a chain whose bodies fail: the render fails exactly when a branch is taken, after evaluating the
 \* same prefix of conditions, and the failing helper runs once (no second branch is entered)
